@@ -33,7 +33,8 @@ struct Cut {
   const CutEntry* table = nullptr;
   int n = 0;
   bool sanitized = false;     // family S (exports cut_ub_*)
-  bool abacus = false;        // sqrt() selects the abacus algorithm at run time
+  bool abacus = false;        // sqrt() selects the abacus algorithm at run time (probed, see cut_load)
+  const char* sqrt_algo = "?";
   int (*ub_count)() = nullptr;
   const CutUbEvent* (*ub_events)() = nullptr;
   void (*ub_reset)() = nullptr;
@@ -73,6 +74,16 @@ static inline bool cut_load(Cut& c, const std::string& path, std::string& err)
   c.ub_reset = (void (*)())dlsym(c.handle, "cut_ub_reset");
   c.sanitized = c.ub_count && c.ub_events && c.ub_reset;
   c.abacus = c.name.find("abacus") != std::string::npos;
+  // Which square-root algorithm does sqrt() select at run time in this build? Decided by probing,
+  // not by the configuration name: e.g. clang 14 with -std=c++2b folds libstdc++'s `if consteval`
+  // based std::is_constant_evaluated() to true in ordinary code, so that build runs the abacus
+  // algorithm at run time. C08 compares builds "provided the same algorithm is selected".
+  {
+    int na = 0, ns = 0, n = 0;
+    for (int64_t x = 2; x < 4000; x += 7) { int64_t s = c.table[E_sqrt].fn(x, 0, 0), sa = c.table[E_sqrt_abacus].fn(x, 0, 0), ss = c.table[E_sqrt_std].fn(x, 0, 0); ++n; na += s == sa; ns += s == ss; }
+    if (na == n && ns < n) c.abacus = true; else if (ns == n && na < n) c.abacus = false;
+    c.sqrt_algo = (na == n && ns < n) ? "abacus" : (ns == n && na < n) ? "std" : (na == n && ns == n) ? "indistinguishable" : "mixed";
+  }
   c.phi = c.table[E_k_phi].fn(0, 0, 0); c.pidiv2 = c.table[E_k_pidiv2].fn(0, 0, 0); c.pidiv4 = c.table[E_k_pidiv4].fn(0, 0, 0);
   c.pi2 = c.table[E_k_pi2].fn(0, 0, 0); c.kmax = c.table[E_k_max].fn(0, 0, 0); c.klowest = c.table[E_k_lowest].fn(0, 0, 0);
   c.knan = c.table[E_k_nan].fn(0, 0, 0); c.kone = c.table[E_k_one].fn(0, 0, 0); c.ktorad = c.table[E_k_torad].fn(0, 0, 0);
